@@ -13,6 +13,10 @@ CLAIMS = {
    text="Deductive proof of the interlock typestate on the real code, once per device type: ghost flags nameChecked/markerMissing/haActive are cleared at entry of device.ApproveOrCompare; (*state).applyCommands (the only path to change, save or commit) requires 'hostname verified (all but NSX), marker not missing, HA member active (PAN-OS)'; the per-device checkDeviceName functions are proved to return normally only if the reported name equals the expected one; cisco/linux checkBanner and panos checkUnmanaged are proved to record a missing marker exactly under the property's condition and LoadDevice/GetChanges to carry it to approve's gate; panos checkHA is proved to return true only for disabled HA or the active member. One genuine defect was repaired (fix: b7526a1), one is a known finding (Linux GetErrUnmanaged).",
    note="Trusted: regexp match abstracted as reMatch(re, s); the reported hostname is defined as the trimmed output of the hostname command (ghost lastOutput set by GetCmdOutput/IssueCmd); library XML decoding is havoc; the diagnostic text and exit status on refusal are covered under C09.",
    tech='contract-based deductive verification: ghost typestate, functional postconditions on name/marker/HA checks, per-device-type specialisation'),
+ 'C09': dict(category='proof', design_ref='DESIGN.md §4 C09',
+   text="Deductive proof with exceptional control flow (panic/defer/recover are modelled): (1) ASA/IOS/Linux cmd returns normally only after every reply of the (possibly joined) command has been read, its echo stripped and the remainder found empty or acceptable; any other outcome ends in errlog.Abort; while a panic propagates only session clean-up commands may be sent (precondition of every send primitive); (2) every ApplyCommands returns nil only if all change commands were accepted and the save/commit was confirmed ([OK] after write memory, job result OK or 'nothing to commit', HTTP 200 and status=success for every request; no change request after a failed one); (3) device.approve returns nil only then, ApproveOrCompare returns 0 only without abort and (for approve) with confirmed changes, and only 0 or 1; (4) do-approve records FAILED iff the exit status is non-zero, DIFF if compare failed, END: FAILED in the history and exits 1. Holds for every device answer and fault position because answers are symbolic.",
+   note="Trusted: what counts as acceptable output is the function isValidOutput itself (used as an uninterpreted function of its arguments); goexpect/HTTP library behaviour (Expect returns an error on timeout/EOF, StatusCode is what the device sent); runtime panics other than errlog.Abort are the subject of C20; the commit job polling loop is not proved to terminate.",
+   tech='contract-based deductive verification: ghost counters and flags, exceptional postconditions, defer/recover modelling, per-device-type specialisation'),
  'C11': dict(category='proof', design_ref='DESIGN.md §4 C11',
    text="Deductive proof over all device answers: a ghost flag isCompareRun is assigned from the argument at entry of device.ApproveOrCompare; every send primitive (console.Conn.Send/IssueCmd/SendCmd/GetCmdOutput, panos httpPrefixGetLog, nsx sendRequest, http PostForm, linux putScp) carries the precondition 'not a compare run, or the command is in the fixed read-only set', which is discharged at every call site of every function on the load, compare and apply paths (approve/compare verified once per device type); scans prove the raw primitives are used only inside those wrappers; site assertions prove that drc -C and the do-approve verb select the path.",
    note="Trusted: the read-only command list in pkg/console/zz_contracts_verif.go is the specification; the PAN-OS keygen URL built by net/url is not inspected (scan only shows httpGet is reached from getAPIKey and httpPrefixGetLog); library calls are assumed not to talk to the device.",
